@@ -35,8 +35,25 @@ fn streams(alpha: &[Req]) -> Vec<Stream> {
     };
     for a in &menu { out.push(mk(&[a])) }
     for a in &menu { for b in &menu { out.push(mk(&[a, b])) } }
+    // bursts (fourth round): pipelined requests whose total is larger than the read buffer, so that a cut leaves a partial
+    // head *behind* complete requests in a buffer that fills up later; every request of a burst has its own query
+    let padded = |size: usize, i: usize| -> Req {
+        let mut b = format!("GET /e?i={i:02} HTTP/1.1\r\nHost: h\r\nX-Pad: ").into_bytes();
+        let fill = size.saturating_sub(b.len() + 4);
+        b.extend((0..fill).map(|k| b'a' + (k % 26) as u8)); b.extend_from_slice(b"\r\n\r\n");
+        Req { name: Box::leak(format!("pad{size}#{i}").into_boxed_str()), bytes: b, head: false, closes: false, kind: "burst" }
+    };
+    for (size, count) in [(150usize, 8usize), (150, 16), (300, 4), (300, 8), (470, 3), (470, 5), (1000, 3)] {
+        let reqs: Vec<Req> = (0..count).map(|i| padded(size, i)).collect();
+        out.push(mk(&reqs.iter().collect::<Vec<_>>()));
+    }
+    let post3 = alpha.iter().find(|r| r.name == "post-3").unwrap(); let hit = alpha.iter().find(|r| r.name == "get-hit").unwrap();
+    let mixed = [padded(300, 0), padded(470, 1), padded(300, 2), padded(150, 3), padded(470, 4), padded(300, 5)];
+    out.push(mk(&[&mixed[0], post3, &mixed[1], hit, &mixed[2], post3, &mixed[3], &mixed[4], hit, &mixed[5]]));
     out
 }
+
+fn is_burst(s: &Stream) -> bool { s.layout.len() > 2 }
 
 /// where a cut (between byte p-1 and byte p) falls
 fn location(s: &Stream, p: usize) -> (usize, &'static str) {
@@ -54,6 +71,13 @@ fn location(s: &Stream, p: usize) -> (usize, &'static str) {
 fn candidates(s: &Stream) -> Vec<usize> {
     let n = s.bytes.len();
     if n <= 160 { return (1..n).collect() }
+    if is_burst(s) {
+        // second cuts of a burst: around every multiple of the buffer size, around every request boundary, every 41st byte
+        let mut v: Vec<usize> = (1..n).filter(|p| p % 41 == 0 || (p % 1024).min(1024 - p % 1024) <= 2).collect();
+        for &(start, head, _, _) in &s.layout { for d in 0..=2 { v.push(start + d); v.push(start + head - d.min(head - 1)) } }
+        v.retain(|p| *p > 0 && *p < n); v.sort(); v.dedup();
+        return v
+    }
     let mut v: Vec<usize> = vec![];
     for &(start, head, total, _) in &s.layout {
         for o in 1..48.min(total) { v.push(start + o) }
@@ -193,7 +217,7 @@ pub fn run(ctx: &mut Ctx) {
             if ctx.out_of_time() { break }
             for &b in &cand[i + 1..] {
                 check_schedule(ctx, &router, s, &expected, &[a, b]); completed[2] += 1; ctx.states += 1;
-                if !quick { for &c in cand.iter().filter(|&&c| c > b) { check_schedule(ctx, &router, s, &expected, &[a, b, c]); completed[3] += 1; ctx.states += 1;
+                if !quick && !is_burst(s) { for &c in cand.iter().filter(|&&c| c > b) { check_schedule(ctx, &router, s, &expected, &[a, b, c]); completed[3] += 1; ctx.states += 1;
                     // four cuts on the short streams (every position is a candidate there)
                     if n <= 100 { for &d in cand.iter().filter(|&&d| d > c) { check_schedule(ctx, &router, s, &expected, &[a, b, c, d]); completed[4] += 1; ctx.states += 1; } }
                 } }
@@ -202,7 +226,7 @@ pub fn run(ctx: &mut Ctx) {
     }
     for (i, c) in completed.iter().enumerate() { ctx.extra.insert(format!("sum_schedules_with_{i}_cuts"), json!(c)); }
     ctx.extra.insert("rule".into(), json!("case = (stream, set of cut positions); the next segment is delivered only when the session is Pending inside a read; non-trivial = at least one cut strictly inside a request, or two requests coalesced into one segment; collision = a cut strictly inside a request"));
-    ctx.extra.insert("bounds".into(), json!({"menu": MENU, "streams": all.len(), "cuts": if quick { "0,1 (all positions), 2 (candidate positions) on every stream" } else { "0,1 (all positions), 2 and 3 (candidate positions) on every stream, 4 on streams <= 100 bytes" },
+    ctx.extra.insert("bounds".into(), json!({"menu": MENU, "streams": all.len(), "bursts": "8 streams of 3..16 pipelined requests (1.2-2.9 KiB, heads of 150/300/470/1000 bytes, one mixed with bodies): every 1-cut, 2-cuts on a grid (every 41st byte, +-2 around multiples of the buffer size, request boundaries and head ends)", "cuts": if quick { "0,1 (all positions), 2 (candidate positions) on every stream" } else { "0,1 (all positions), 2 and 3 (candidate positions) on every stream, 4 on streams <= 100 bytes" },
         "candidate_positions": "all positions for streams <= 160 bytes; otherwise the first 48 bytes of each request, +-3 around the end of each head, +-2 around the 1 KiB buffer end, +-3 around each request boundary, every 97th body byte",
         "tcp_binding": if quick { "0- and 1-cut schedules of the 3 shortest single requests and 2 shortest pairs" } else { "0-, 1- and a 1/23 slice of 2-cut schedules of the 5 shortest single requests and 5 shortest pairs" }}));
     ctx.sample(|| json!({"stream": ["post-3"], "cuts": [70]}));
